@@ -30,8 +30,13 @@ PROP = dict(
         "max_code_point_phrase_fixed)",
         "the leaf comparator of TrieBuilder::write is a total preorder on all leaves since repository fix ddfe893 (model follows it; "
         "leaf_order_any_stable_sort: the model's leaf does not depend on the algorithm slice::sort_by runs)",
-        "known finding F36 (FuzzyOverTombstoneOrPending, prefix lookups only) is excluded by an exact decidable class; exact lookups and "
-        "the enumeration carry no exclusion (F10 UpdatePersisted fixed)",
+        "no excluded class: F36 (FuzzyOverTombstoneOrPending, prefix lookups over pending / tombstoned entries) is repaired by fix 097161a; "
+        "the prefix-lookup SPECIFICATION IsFuzzyLookup is order-free (each text live under a matching key once, value of one such key, highest "
+        "frequency); the ORDER of the repaired code is stated as an equation (fuzzy_order) and compared record by record. Prefix matching = same "
+        "number of syllables and stored.starts_with(query) per syllable (Trie.fuzzyMatch; its `n != 0` guard is vacuous on a Vec<Syllable>)",
+        "the persisted candidates of a prefix lookup come from the REAL Trie::entries() (depth first) while the model enumerates the file in "
+        "sorted order; that the two agree after the prefix filter is a THEOREM (fuzzy_order_is_file_order, Proofs/TrieFuzzyOrder.lean: the "
+        "matching keys have one length, a chain of proper prefixes holds at most one key of a length) — not an assumption",
         "SQLite user dictionary: relational reading of its eight SQL statements (INSERT OR REPLACE, LEFT JOIN, ORDER BY with "
         "NULLs first and BINARY collation, rowid = largest id + 1) is trusted; its specification SMap differs from MapSpec by "
         "design of the back end (value = (freq, Option(user_freq, time)), reported frequency = max, add replaces instead of "
@@ -44,24 +49,29 @@ MANIFEST = dict(
          "B-tree + graveyard, sequential snapshot writer with file/in-flight state) refines the abstract map MapSpec along "
          "every operation history (invariant + snapshot lemma: the file built from entries() denotes the same map); add is "
          "rejected exactly on live keys; EXACT LOOKUPS AND THE ENUMERATION ARE THE MAP'S IN EVERY STATE of every history, in-memory "
-         "or file-backed, with no precondition on the calls (C09_exact : C09_exact_full, lookup_exact, entries_exact; on an exact lookup "
-         "the de-duplication loop is the identity, lookup_is_candidates); PREFIX lookups are the map's outside the exact decidable class "
-         "FuzzyOverTombstoneOrPending (fuzzy_exact; refutations proved with the concrete witnesses, C09_full_refuted); the class is "
-         "transient: after any history, reopen;flush;reopen or close-and-open leaves nothing pending and every answer (exact, prefix, "
+         "or file-backed, with no precondition on the calls (lookup_exact, entries_exact; on an exact lookup "
+         "the de-duplication loop is the identity, lookup_is_candidates); since fix 097161a (F36) PREFIX lookups are the map's in every state "
+         "too, so the FULL statement is a theorem: C09 : C09_full (refinement + exact + prefix + enumeration answers, every history, no "
+         "excluded class, no side condition; fuzzy_exact, fuzzy_phrases, triebuf_refines_full; the former refutation witnesses are the "
+         "regression theorems fuzzy_pending_repaired, fuzzy_tombstone_repaired, fuzzy_shadow_repaired); the specification of a prefix lookup is "
+         "order-free, the order of the code is the equation fuzzy_order (persisted matching entries in file order, then pending ones in "
+         "BTreeMap order, first appearance per text) and both strategies are one formula (lookup_is_filtered_enumeration: candidates = "
+         "entries() filtered by the strategy's key match); reopen;flush;reopen or close-and-open leave nothing pending and every answer (exact, prefix, "
          "enumeration) is the map's (adoption_answers, close_open_answers); removed stays absent, re-add/update visible again with exactly "
          "the written value (readd_visible_again, update_visible, pending_is_reported); Layered = union, one entry per phrase, highest frequency, "
          "first-appearance order, and under any history applied through Layered its answer is system layers + the user's map "
-         "(layered_history, layered_history_file); first n = prefix of the full result for TrieBuf, Layered, Trie and SQLite, "
+         "for BOTH strategies, in-memory or file-backed user layer, in every state (layered_history_full; layered_history, layered_history_file); first n = prefix of the full result for TrieBuf, Layered, Trie and SQLite, "
          "lookup_first_phrase = its head. SQLite (relational model of the two tables): refinement and exact answers in every "
          "state, no exclusion. Correspondence part (not a theorem): the hand-written models are tied to the code by replaying "
          "random histories (quick: ~55 000 steps) through model and implementation and comparing every answer in order, plus "
          "a reference-map oracle on the implementation that yields the concrete failing history.",
-    note="Four fix: commits in the repository (F09 tombstone lifted on add/update, F11 Trie first-n truncation, F10 a pending entry "
+    note="Five fix: commits in the repository (F09 tombstone lifted on add/update, F11 Trie first-n truncation, F10 a pending entry "
          "replaces the persisted one with the same key in entries() and lookups, C09-N1 the pending range is no longer cut at U+10FFFF; "
-         "regression theorems update_persisted_fixed, max_code_point_phrase_fixed). F36 is the one known finding left: "
-         "Trie::lookup_first_n_phrases returns bare phrases — its breadth-first walk does not keep the key a persisted phrase was found "
-         "under — so for a PREFIX query pending/tombstoned entries cannot be merged by key without a key-yielding lookup in trie.rs "
-         "(interface change, recorded, not fixed). Trusted: Lean kernel (propext, Classical.choice, Quot.sound), the harness, "
+         "regression theorems update_persisted_fixed, max_code_point_phrase_fixed) plus F36 (097161a): a prefix lookup of TrieBuf is answered "
+         "from the merged view entries_iter() — pending over persisted, minus tombstones, each keyed by the entry's OWN key — filtered by Trie's "
+         "per-syllable match; no change to Trie, exact lookups untouched. No known finding is left for C09: every failing exact, prefix or "
+         "enumeration answer is reported as new. Side effect on the editor family: their harness layers are in-memory TrieBufs, whose prefix "
+         "lookup was the exact lookup before the fix — the editor driver's dictionary model and C07's reference follow the strategy now. Trusted: Lean kernel (propext, Classical.choice, Quot.sound), the harness, "
          "the compiled model driver, the relational reading of SQL. Not covered: SQLite v1 migration, concurrent writer "
          "schedules (C10). The order of Trie::entries across keys is no longer open: C09.file_entries_order (from C11.entries_order) — the real "
          "iterator lists the leaves of the file with every maximal prefix chain of the sorted key list reversed. The byte format is no "
